@@ -79,7 +79,7 @@ Container(c) == IF c \in {"T", "xz"} THEN "xz" ELSE "plain"
 
 Init ==
   /\ pc = "choose"
-  /\ obj = [cell |-> [name |-> "none", ext |-> FALSE, mag |-> "none", masses |-> "std"], calc |-> "none", ds |-> NoDs, fc |-> "none",
+  /\ obj = [cell |-> [name |-> "none", ext |-> FALSE, mag |-> "none", masses |-> "std", generic |-> FALSE], calc |-> "none", ds |-> NoDs, fc |-> "none",
             nac |-> [kind |-> "none", factor |-> FALSE]]
   /\ st = [fs |-> "unset", disp |-> "unset", fc |-> "unset", born |-> "unset", eps |-> "unset"]
   /\ comp = "F"
